@@ -33,6 +33,7 @@ type hist struct {
 	nextID int64
 	op     int
 	opName string
+	scen   string
 	burst  int
 
 	pending  []*objState
@@ -41,13 +42,22 @@ type hist struct {
 	reported map[string]bool
 
 	ops, liveChecks, releasedChecks, fails int
+	suppressed                             int
 	broken                                 bool
 	capInc                                 int
 }
 
+// maxFailLines bounds the FAIL lines printed per history; further failures are
+// counted and summarised in one extra line.
+const maxFailLines = 40
+
 func (h *hist) fail(kind string, format string, args ...interface{}) {
 	h.fails++
-	fmt.Fprintf(h.out, "FAIL history=%d op=%d %s: %s\n", h.idx, h.op, kind, fmt.Sprintf(format, args...))
+	if h.fails > maxFailLines {
+		h.suppressed++
+		return
+	}
+	fmt.Fprintf(h.out, "FAIL history=%d op=%d %s:%s %s\n", h.idx, h.op, kind, h.scen, fmt.Sprintf(format, args...))
 }
 
 // guard runs f and converts a panic into a FAIL; the history is abandoned
